@@ -2,7 +2,7 @@
 run Verus, classify every diagnostic into discharged / failed / undecided obligations."""
 import difflib, hashlib, json, os, re, subprocess, time
 
-from rsx import (ExtractError, Source, insert_after_pattern, insert_loop_specs, norm, replace_pattern,
+from rsx import (ExtractError, Source, apply_r9, insert_after_pattern, insert_loop_specs, norm, replace_pattern,
                  rewrite_body, rewrite_sig, tokenize, sig)
 
 VERIFY_MSGS = (
@@ -25,6 +25,9 @@ VERIFY_MSGS = (
     "cannot show invariant holds before loop",
     "cannot show invariant holds at end of loop body",
     "requires not satisfied",
+    "loop invariant not satisfied",
+    "loop ensures not satisfied",
+    "invariant not satisfied",
 )
 UNDECIDED_MSGS = ("resource limit", "rlimit", "timed out", "timeout")
 
@@ -250,16 +253,20 @@ def _emit_fn(g, source, a, blocks, vacuity):
             sigtext = _replace_norm(sigtext, old, new)
             rules.append(("R8", f"signature: {old.strip()} -> {new.strip()}"))
     body = rewrite_body(it.body_text, rules, intended_panics=bool(a.get("intended_panics")))
+    body = apply_r9(body, rules)
     for ra in blocks["replaces"]:
         rep = "\n".join(ra["text"]).strip("\n")
         body = replace_pattern(body, ra["pattern"], rep, f.name, int(ra.get("count", 1)))
         rules.append((ra.get("rule", "R9"), f"replace `{ra['pattern']}` -> `{norm(rep)[:200]}`"))
     for ia in blocks["inserts"]:
         txt = "\n" + "\n".join(ia["text"]) + "\n"
+        nth = int(ia.get("nth", 1))
         if "after" in ia:
-            body = insert_after_pattern(body, ia["after"], txt, f.name)
+            body = insert_after_pattern(body, ia["after"], txt, f.name, nth=nth)
+        elif "arm_end" in ia:
+            body = insert_after_pattern(body, ia["arm_end"], txt, f.name, nth=nth, arm_end=True)
         else:
-            body = insert_after_pattern(body, ia["before"], txt, f.name, before=True)
+            body = insert_after_pattern(body, ia["before"], txt, f.name, before=True, nth=nth)
     loops = {n: "\n".join(v) for n, v in blocks["loops"].items()}
     body = insert_loop_specs(body, loops, f.name)
     spec = "\n".join(blocks["spec"])
